@@ -582,8 +582,84 @@ pub fn rand_sheader(rng: &mut Rng) -> spec::SHeader {
     }
 }
 
+/// the header inside a written archive: the six coordinates given to the archive arrive in the header exactly as
+/// `Header` itself stores them (no re-ordering, clamping or normalising on the way), and opening hands back what
+/// the stored values decode to
+fn chk_hdr_in_archive(asy: bool, coords: [f64; 6]) -> Result<(), String> {
+    use futures::executor::block_on;
+    let mut h = pmtiles2::Header::default();
+    h.min_pos.longitude = coords[0];
+    h.min_pos.latitude = coords[1];
+    h.max_pos.longitude = coords[2];
+    h.max_pos.latitude = coords[3];
+    h.center_pos.longitude = coords[4];
+    h.center_pos.latitude = coords[5];
+    let hb = header_enc(asy, &h).map_err(|e| format!("encode failed: {e}"))?;
+    let bytes: Vec<u8> = if asy {
+        let mut p = pmtiles2::PMTiles::new_async(pmtiles2::TileType::Png, Compression::None);
+        (p.min_longitude, p.min_latitude, p.max_longitude, p.max_latitude, p.center_longitude, p.center_latitude) = (coords[0], coords[1], coords[2], coords[3], coords[4], coords[5]);
+        p.add_tile(3, vec![1u8, 2]).map_err(|e| e.to_string())?;
+        let mut out = futures::io::Cursor::new(Vec::new());
+        block_on(p.to_async_writer(&mut out)).map_err(|e| format!("to_async_writer: {e}"))?;
+        out.into_inner()
+    } else {
+        let mut p = pmtiles2::PMTiles::new(pmtiles2::TileType::Png, Compression::None);
+        (p.min_longitude, p.min_latitude, p.max_longitude, p.max_latitude, p.center_longitude, p.center_latitude) = (coords[0], coords[1], coords[2], coords[3], coords[4], coords[5]);
+        p.add_tile(3, vec![1u8, 2]).map_err(|e| e.to_string())?;
+        let mut out = std::io::Cursor::new(Vec::new());
+        p.to_writer(&mut out).map_err(|e| format!("to_writer: {e}"))?;
+        out.into_inner()
+    };
+    if bytes.len() < 127 {
+        return Err("archive shorter than a header".into());
+    }
+    for (name, at) in [("min longitude", 102usize), ("min latitude", 106), ("max longitude", 110), ("max latitude", 114), ("center longitude", 119), ("center latitude", 123)] {
+        if bytes[at..at + 4] != hb[at..at + 4] {
+            let got = i32::from_le_bytes([bytes[at], bytes[at + 1], bytes[at + 2], bytes[at + 3]]);
+            let want = i32::from_le_bytes([hb[at], hb[at + 1], hb[at + 2], hb[at + 3]]);
+            return Err(format!("the archive's header stores {got} as {name}, a header given the same six coordinates {coords:?} stores {want}"));
+        }
+    }
+    let sh = spec::decode_header(&bytes[..127]).map_err(|e| format!("reference decoder rejects the archive's header: {e}"))?;
+    let back: [f64; 6] = if asy {
+        let p = block_on(pmtiles2::PMTiles::from_async_reader(futures::io::Cursor::new(bytes.clone()))).map_err(|e| format!("open: {e}"))?;
+        [p.min_longitude, p.min_latitude, p.max_longitude, p.max_latitude, p.center_longitude, p.center_latitude]
+    } else {
+        let p = pmtiles2::PMTiles::from_bytes(&bytes[..]).map_err(|e| format!("open: {e}"))?;
+        [p.min_longitude, p.min_latitude, p.max_longitude, p.max_latitude, p.center_longitude, p.center_latitude]
+    };
+    for k in 0..6 {
+        let want = f64::from(sh.coords[k]) / 1e7;
+        if back[k].to_bits() != want.to_bits() {
+            return Err(format!("coordinate #{k} stored as {} is handed back as {:e} on opening, it decodes to {want:e}", sh.coords[k], back[k]));
+        }
+    }
+    Ok(())
+}
 pub fn gen_c09(rng: &mut Rng, quick: bool, st: &mut Stats) -> Vec<String> {
     let mut c: Vec<String> = Vec::new();
+    // coordinates as they travel through a whole archive: boxes crossing the antimeridian (min > max), values beyond
+    // +-180 / +-90 (the stored i32 reaches +-214.7483647), poles, sub-resolution values
+    {
+        let mut sets: Vec<[f64; 6]> = vec![
+            [170.0, -10.0, -170.0, 10.0, 180.0, 0.0],
+            [179.9999999, 85.0, -179.9999999, -85.0, -180.0, 90.0],
+            [200.5, -95.25, 214.7483647, 100.0, -214.7483648, -120.5],
+            [-214.7483648, 214.7483647, 190.0, -190.0, 181.0, 91.0],
+            [5e-8, -5e-8, 1e-7, -1e-7, 4.9e-8, -0.0],
+        ];
+        for _ in 0..(if quick { 20 } else { 300 }) {
+            let mut v = [0f64; 6];
+            for x in v.iter_mut() {
+                *x = if rng.chance(1, 3) { (rng.next() as i32 as f64) / 1e7 } else { crate::gen_arch::gen_coord(rng) };
+            }
+            sets.push(v);
+        }
+        for (k, v) in sets.iter().enumerate() {
+            c.push(format!("chk_hdr_in_archive {} {}", if k % 2 == 0 { "sync" } else { "async" }, v.iter().map(|x| f64_tok(*x)).collect::<Vec<_>>().join(" ")));
+            st.bump("headers_inside_archives");
+        }
+    }
     let n = if quick { 150 } else { 3000 };
     for i in 0..n {
         let mode = if i % 2 == 0 { "sync" } else { "async" };
@@ -934,6 +1010,11 @@ pub fn run_chk(toks: &[&str]) -> Option<String> {
         ["chk_zxy_id", id] => {
             let id = unhex_u64(id);
             guard_chk(|| chk_zxy_id(id))
+        }
+        ["chk_hdr_in_archive", mode, a, b, c, d, e, f] => {
+            let v = [parse_f64(a), parse_f64(b), parse_f64(c), parse_f64(d), parse_f64(e), parse_f64(f)];
+            let asy = *mode == "async";
+            guard_chk(|| chk_hdr_in_archive(asy, v))
         }
         ["chk_hseq", seed, len] => {
             let (seed, len) = (unhex_u64(seed), unhex_u64(len) as usize);
